@@ -40,3 +40,15 @@ func VerifCleanWorkingSetAddr(nbf *types.NomsBinFormat, root hash.Hash) (hash.Ha
 func VerifNodeStore(db Database) tree.NodeStore {
 	return db.(*database).ns
 }
+
+// VerifWorkingSetAddr returns the address newWorkingSet would store |spec| under.
+func VerifWorkingSetAddr(nbf *types.NomsBinFormat, spec WorkingSetSpec) (hash.Hash, error) {
+	stagedAddr := spec.StagedRoot.TargetHash()
+	data := workingset_flatbuffer(spec.WorkingRoot.TargetHash(), &stagedAddr, spec.MergeState, spec.RebaseState, spec.Meta)
+	return types.SerialMessage(data).Hash(nbf)
+}
+
+// VerifTagAddr returns the address newTag would store a tag of |commitAddr| under.
+func VerifTagAddr(nbf *types.NomsBinFormat, commitAddr hash.Hash, meta *TagMeta) (hash.Hash, error) {
+	return types.SerialMessage(tagSerialMessage(commitAddr, meta)).Hash(nbf)
+}
